@@ -338,7 +338,7 @@ theorem tie_findEdges_shape : QueryFns.findEdges_shape =
 theorem tie_findEdge_shape : QueryFns.findEdge_shape =
     "single := *opts; single.MaxResults(1); e.findEdges(target, &single); if cond0(len(e.results)) {return e.results[0]}; return newEdgeQueryResult(target)" := rfl
 theorem tie_findEdgesInternal_shape : QueryFns.findEdgesInternal_shape =
-    "e.target = target; e.opts = opts; e.testedEdges = make(map[ShapeEdgeID]uint32); e.distanceLimit = target.distance().fromChordAngle(opts.distanceLimit); e.results = make([]EdgeQueryResult, 0); if cond0(e.distanceLimit) {return}; if cond1(opts.includeInteriors) {shapeIDs := map[int32]struct{}{}; e.target.visitContainingShapes(e.index, func{shapeIDs[e.index.idForShape(containingShape)] = struct{}{}; return val0(len(shapeIDs), opts.maxResults)}); range shapeID := shapeIDs {e.addResult(EdgeQueryResult{val1(), shapeID, -1})}; if cond2(e.distanceLimit) {return}}; targetUsesMaxError := val2(opts.maxError, e.target.setMaxError(opts.maxError)); e.useConservativeCellDistance = val3(targetUsesMaxError, e.distanceLimit, opts.maxError); minOptimizedEdges := val4(e.target.maxBruteForceIndexSize()); if cond3(minOptimizedEdges, e.indexNumEdgesLimit, e.indexNumEdges) {e.indexNumEdges = e.index.NumEdgesUpTo(minOptimizedEdges); e.indexNumEdgesLimit = minOptimizedEdges}; if cond4(opts.useBruteForce, e.indexNumEdges, minOptimizedEdges) {e.avoidDuplicates = false; e.findEdgesBruteForce()} else {e.avoidDuplicates = val5(targetUsesMaxError, opts.maxResults); e.findEdgesOptimized()}" := rfl
+    "e.target = target; e.opts = opts; e.testedEdges = make(map[ShapeEdgeID]uint32); e.distanceLimit = target.distance().fromChordAngle(opts.distanceLimit); e.results = make([]EdgeQueryResult, 0); if cond0(e.distanceLimit) {return}; if cond1(opts.includeInteriors) {shapeIDs := map[int32]struct{}{}; e.target.visitContainingShapes(e.index, func{shapeIDs[e.index.idForShape(containingShape)] = struct{}{}; return val0(len(shapeIDs), opts.maxResults)}); range shapeID := shapeIDs {e.addResult(EdgeQueryResult{val1(), shapeID, -1})}; if cond2(e.distanceLimit) {return}}; targetTakesMaxError := e.target.setMaxError(opts.maxError); targetUsesMaxError := val2(opts.maxError, targetTakesMaxError); e.useConservativeCellDistance = val3(targetUsesMaxError, e.distanceLimit, opts.maxError); minOptimizedEdges := val4(e.target.maxBruteForceIndexSize()); if cond3(minOptimizedEdges, e.indexNumEdgesLimit, e.indexNumEdges) {e.indexNumEdges = e.index.NumEdgesUpTo(minOptimizedEdges); e.indexNumEdgesLimit = minOptimizedEdges}; if cond4(opts.useBruteForce, e.indexNumEdges, minOptimizedEdges) {e.avoidDuplicates = false; e.findEdgesBruteForce()} else {e.avoidDuplicates = val5(targetUsesMaxError, opts.maxResults); e.findEdgesOptimized()}" := rfl
 theorem tie_addResult_shape : QueryFns.addResult_shape =
     "e.results = append(e.results, r); if cond0(e.opts.maxResults) {e.distanceLimit = val0(r.distance, e.opts.maxError)}" := rfl
 theorem tie_maybeAddResult_shape : QueryFns.maybeAddResult_shape =
